@@ -105,6 +105,11 @@ def make_dataset(seed, idx):
     chunks[m[:s]] = cid
     chunks[m[s:2 * s]] = cid + 1
     cid += 2
+  # "any chunk layout": one chunklet with a single member (it contributes nothing to the within-chunk covariance wherever it sits)
+  free = np.where(chunks == -1)[0]
+  if len(free):
+    chunks[free[0]] = cid
+    cid += 1
 
   def same():
     c = rng.randint(ncls)
@@ -272,7 +277,8 @@ def relations(D, rng, tier):
           continue
         yield 'orthogonal', name, var, (lambda X, Q=Q, rtol=rtol: (X.dot(Q.T), D['queries'].dot(Q.T), {}, 1.0, rtol, dict(Q=Q.tolist())))
   for name in ('Covariance', 'RCA'):
-    for j in ((rng.choice([-3, -1, 2, 5]),) if quick else (-4, -1, 1, 3, 10)):
+    # c > 0 is arbitrary: moderate factors and very small / very large ones (a cut-off that is not relative to the data breaks the 1/c law there)
+    for j in ((rng.choice([-3, -1, 2, 5]), rng.choice([-20, 18])) if quick else (-20, -4, -1, 1, 3, 10, 18)):
       c = 2.0 ** j
       yield 'scaling', name, variant, (lambda X, c=c: (X * c, D['queries'], {}, 1.0 / c, 1e-9, dict(c=c)))
 
